@@ -5,7 +5,16 @@ from . import ref
 def replay_roundtrip(lengths, blocked, api, records=None):
     from cardutil import mciipm
     recs = records or [ref.content(n, i) for i, n in enumerate(lengths)]
-    if api == 'class':
+    if api == 'with-close':
+        f = io.BytesIO()
+        with mciipm.VbsWriter(f, blocked=blocked) as w:
+            for r in recs:
+                w.write(r)
+            w.close()
+        if f.tell() != 0:
+            return True, 'file left at %d' % f.tell(), 'C03/rewind'
+        data = f.getvalue()
+    elif api == 'class':
         f = io.BytesIO()
         w = mciipm.VbsWriter(f, blocked=blocked)
         for r in recs:
@@ -24,7 +33,7 @@ def replay_roundtrip(lengths, blocked, api, records=None):
     elif data != E:
         return True, 'unblocked file differs from [len32 body]* 0', 'C03/layout'
     try:
-        if api == 'class':
+        if api in ('class', 'with-close'):
             got = list(mciipm.VbsReader(io.BytesIO(data), blocked=blocked))
         else:
             got = mciipm.vbs_bytes_to_list(data, blocked=blocked)
